@@ -35,5 +35,15 @@ CLAIMS = {
         "technique": "Coq proof (positional expansion of the rearranged number, coprimality with 97 by induction, lia) + data obligations + correspondence",
         "design_ref": "DESIGN.md §4 C03",
     },
+    "C04": {
+        "text": "Theorem C04_accept: for every text and both compliance modes, the model of BIC(text) succeeds iff clean(text) "
+                "has the ISO 9362 structure 4!c2!a2!c[3!c] (4!a.. when strict) and its 5th-6th characters are in the ISO 3166 "
+                "list regenerated from pycountry. Generic proof over any configuration passing bic_cfg_ok (patterns as counted "
+                "class runs with an optional tail, full-match site, lengths {8,11}, all three steps present), obligation "
+                "re-discharged on the translated bic.py on every run. Found and fixed: prefix match (df13fbc).",
+        "note": COMMON_NOTE + " pycountry's case-insensitive get is modelled as exact membership in its upper-case code list (coincide on [A-Z]{2}; exercised by the stream).",
+        "technique": "Coq proof (regex language of runs+optional tail) + generated data obligations + extracted-model correspondence",
+        "design_ref": "DESIGN.md §4 C04",
+    },
 }
 NOT_APPLICABLE = {}
